@@ -674,6 +674,17 @@ Proof.
   intros l [<-|[<-|[<-|[<-|[]]]]]; congruence.
 Qed.
 
+Lemma reversible_outside_known_class d w :
+  four_present w = true -> KnownClass_C17_agent_not_runnable runnable w = false ->
+  let w' := exec runnable (Restore d) (exec runnable Install (exec runnable Backup w)) in
+  (forall l, In l sys_locs -> fs_get l (wfs w') = fs_get l (wfs w)) /\
+  wrunning w' = true /\ wenabled w' = true.
+Proof.
+  intros F K. apply reversible. unfold installed. fold (four_present w). rewrite F. cbn [andb].
+  unfold KnownClass_C17_agent_not_runnable in K. rewrite F in K. cbn [andb] in K.
+  destruct (version_ok runnable SysExe w); [reflexivity|discriminate].
+Qed.
+
 (* the same after any history: whatever commands ran before, once a version is installed the
    triple backup; install; restore reinstates it *)
 Lemma reversible_after_history cmds d w :
@@ -792,8 +803,8 @@ Lemma reversible_needs_all_files :
     fs_get SysEbpf (wfs (triple standin_runnable true w)) <> fs_get SysEbpf (wfs w).
 Proof. exists ex_partial. vm_compute. repeat split; discriminate. Qed.
 
-Lemma reversible_needs_runnable :
-  exists w, forallb (fun l => fs_has l (wfs w)) sys_locs = true /\ installed standin_runnable w = false /\
+Lemma reversible_refuted :
+  exists w, four_present w = true /\ KnownClass_C17_agent_not_runnable standin_runnable w = true /\
     fs_get SysExe (wfs (triple standin_runnable true w)) <> fs_get SysExe (wfs w) /\
     wrunning (triple standin_runnable true w) = false.
 Proof. exists ex_not_runnable. vm_compute. repeat split; discriminate. Qed.
